@@ -56,6 +56,15 @@ func (b *siteBuilder) name(prefix, ext string) string {
 	return fmt.Sprintf("http://%s/%s%d%s", b.host, prefix, b.n, ext)
 }
 
+// challenge turns every second 403 answer into a Cloudflare challenge page (403 + "cf-mitigated: challenge"): the one
+// kind of 403 the archiver discards, retries and reports to the rate limiter.
+func (b *siteBuilder) challenge(u string) {
+	if r := b.site[u]; r != nil && r.Kind == "status" && r.Status == 403 && r.FailFirst == 0 && b.pick("challenge", 2) == 0 {
+		r.Challenge = true
+		b.feat["challenge-page"] = true
+	}
+}
+
 func (b *siteBuilder) pick(label string, n int) int { return rapid.IntRange(0, n-1).Draw(b.t, label) }
 
 // failing decorates a resource with a failure behaviour some of the time.
@@ -192,6 +201,7 @@ func (b *siteBuilder) asset(siblings []string) string {
 	case 8:
 		u := b.name("e", ".png")
 		b.site[u] = &Res{Kind: "status", Status: []int{404, 403, 410, 204}[b.pick("st", 4)]}
+		b.challenge(u)
 		b.feat["asset-4xx"] = true
 		return u
 	case 9:
@@ -275,7 +285,11 @@ func GenSeed(t *rapid.T, idx int, site Site, st Settings) (SeedPlan, map[string]
 	case 5, 6, 7: // redirect chain
 		n := 1 + b.pick("chain", 6)
 		var end string
-		switch b.pick("chainend", 8) {
+		switch b.pick("chainend", 10) {
+		case 7, 8:
+			// the chain leads into the host's endless redirect trap: only --max-redirect ends it
+			end = fmt.Sprintf("http://%s/trap%d/n1", b.host, b.pick("trapform", 3))
+			b.feat["redirect-trap"] = true
 		case 0, 1, 2:
 			end = b.page()
 		case 3:
@@ -293,6 +307,7 @@ func GenSeed(t *rapid.T, idx int, site Site, st Settings) (SeedPlan, map[string]
 		default:
 			e := b.name("e", "")
 			b.site[e] = &Res{Kind: "status", Status: []int{404, 403, 500}[b.pick("st", 3)]}
+			b.challenge(e)
 			end = e
 		}
 		urls := make([]string, n)
@@ -315,6 +330,7 @@ func GenSeed(t *rapid.T, idx int, site Site, st Settings) (SeedPlan, map[string]
 	case 8:
 		u := b.name("e", "")
 		b.site[u] = b.failing(&Res{Kind: "status", Status: []int{404, 403, 410, 500, 503, 429}[b.pick("st", 6)]})
+		b.challenge(u)
 		sp.URL = u
 		b.feat["seed-status"] = true
 	case 9:
@@ -326,6 +342,20 @@ func GenSeed(t *rapid.T, idx int, site Site, st Settings) (SeedPlan, map[string]
 	default:
 		sp.URL = b.doc(2)
 		b.feat["seed-is-document"] = true
+	}
+	// how this site spells its redirects: absolute URLs, or - for targets on the same host - "/path" or "name" references
+	// the client has to resolve against the URL that answered (every hop of a chain then is a relative one)
+	if form := []int{0, 0, 1, 2}[b.pick("locform", 4)]; form != 0 {
+		prefix, n := "http://"+b.host+"/", 0
+		for u, r := range site {
+			if r != nil && r.Kind == "redirect" && strings.HasPrefix(u, prefix) && strings.HasPrefix(r.Loc, prefix) {
+				r.LocForm = form
+				n++
+			}
+		}
+		if n > 0 {
+			b.feat["relative-location"] = true
+		}
 	}
 	return sp, b.feat
 }
